@@ -26,6 +26,8 @@ func init() {
 				if id == "C06" {
 					// the per-interface limit the pool is started with: limits -> checkInstance / getPoolConfig (c19.go)
 					c06ConfigRun(c, c.Scale(400, 8000))
+					// which of the interfaces found attached at start-up the pool is told are the trunk / RDMA ones (c07factory.go)
+					faAttachedRun(c, c.Scale(80, 800))
 				}
 				if id == "C01" {
 					// exclusivity across a daemon restart (the pool is rebuilt from the stored records by Local.load): the
